@@ -73,7 +73,7 @@ func runSelfValidation(prop, repo, verif string, res *Result) {
 		muts = append(muts, ms...)
 	}
 	// independently seeded defects kept under seeded/<id>/ are break variants too
-	metas, _ := filepath.Glob(filepath.Join(verif, "seeded", prop+"-*", "meta.json"))
+	metas, _ := filepath.Glob(filepath.Join(verif, "seeded", "*", "meta.json"))
 	sort.Strings(metas)
 	for _, mf := range metas {
 		b, err := os.ReadFile(mf)
@@ -89,8 +89,22 @@ func runSelfValidation(prop, repo, verif string, res *Result) {
 		if json.Unmarshal(b, &meta) != nil || meta.ID == "" {
 			continue
 		}
+		// a seed belongs to its own property, and to every other property whose rule reports it
+		own := strings.HasPrefix(meta.ID, prop+"-")
+		byOwn, byThis := false, false
+		for _, d := range meta.DetectedBy {
+			if !strings.Contains(d, ":") {
+				byOwn = true
+			}
+			if strings.HasPrefix(d, prop+":") {
+				byThis = true
+			}
+		}
+		if !own && !byThis {
+			continue
+		}
 		m := mutant{Name: "seeded-" + meta.ID, Kind: "break", Desc: meta.Change, Patch: filepath.Join(filepath.Dir(mf), "patch.diff")}
-		if meta.Status == "missed" {
+		if meta.Status == "missed" || (own && !byOwn) {
 			m.Kind = "break-documented-miss"
 		}
 		muts = append(muts, m)
